@@ -7,7 +7,7 @@ def _sum(results, key):
 
 CHECKS = {}
 # checks run end-to-end and reviewed by the lead; only these are claimed in MANIFEST.json
-REVIEWED = ["C01", "C02", "C03", "C04"]
+REVIEWED = ["C01", "C02", "C03", "C04", "C15", "C17", "C18"]
 NOT_APPLICABLE = {}  # property -> reason, for properties deliberately not claimed
 
 # ------------------------------------------------------------------------------------------------ C01
@@ -192,6 +192,85 @@ CHECKS["C15"] = dict(
     ),
     manifest=dict(technique="exhaustive enumeration of operation histories up to a depth on long-lived real parser objects, each compared with a fresh parser (reference model = configuration tracking)",
                   text="All histories within the depth bound are executed on the real parser; hidden state is exactly what is under test, so no state merging is done on the implementation side."),
+)
+
+
+# ------------------------------------------------------------------------------------------------ C17
+def _sx(name, flavor, *args, **kw):
+    return dict(name=name, driver="schedx", flavor=flavor, plain_c=["sched_core.c"], args=list(args), **kw)
+
+
+def _c17_cov(rs):
+    scen = {}
+    for r in rs:
+        for k, v in r.get("scenarios", {}).items():
+            scen[r["_run"]["name"] + "/" + k] = v
+    return {"states": max(1, _sum(rs, "distinct_schedule_signatures")), "transitions": max(1, _sum(rs, "scheduling_points")),
+            "traces_validated_against_impl": _sum(rs, "schedules"), "distinct_nontrivial": _sum(rs, "contended_schedules"),
+            "scenarios": scen, "distinct_outcomes": _sum(rs, "distinct_outcomes"),
+            "explanation": "states = distinct complete schedules (signature of the thread chosen at every scheduling point); transitions = scheduling points executed; every schedule is "
+                           "an execution of the real library with real threads under the serialising scheduler; distinct_nontrivial = schedules on which a thread blocked on a library mutex"}
+
+
+CHECKS["C17"] = dict(
+    level="model_checking",
+    rule="Stateless exploration of thread schedules with iterated preemption bound (CHESS style) over 12 scenarios of 2-3 real threads forced to collide on lazily "
+         "initialised or shared library state (first use of regex categories; parsers sharing one locked grammar pool validating the same type / DTD element for the "
+         "first time; owner-less DOMDocumentType; DOMImplementationRegistry; local-code-page transcoding; parser construction and progressive scan tokens; message "
+         "loading; private DOM build/serialise). Scheduling points: thread start/end and before-lock / inside-critical-section / after-unlock of every library mutex "
+         "(through the XMLPlatformUtils::fgMutexMgr seam). Exactly one thread runs at a time; all schedules with <= b preemptions are enumerated breadth-first by "
+         "preemption count (b=1 quick, b=2 thorough). Each schedule starts from a freshly initialised library. Oracle per schedule: no ThreadSanitizer report (the "
+         "scheduler is uninstrumented and hands off with raw futexes, so TSan's happens-before contains only the library's own synchronisation), no deadlock, no "
+         "crash, and every thread's result equals its result when run alone. The thorough tier repeats bound 1 under ASan+UBSan.",
+    trusted_base=["clang 14 ThreadSanitizer (happens-before race detection, sequentially consistent model)", "clang 14 ASan/UBSan"],
+    assumptions=["more than 3 threads / 2 preemptions and weak-memory reorderings beyond TSan's model are not covered", "ICU's and libstdc++'s internal synchronisation is trusted"],
+    coverage=_c17_cov,
+    runs=dict(
+        quick=[_sx("schedules-tsan-bound1", "tsan", "--bound", 1, "--budget", 1500)],
+        thorough=[_sx("schedules-tsan-bound2", "tsan", "--bound", 2, "--budget", 2500),
+                  _sx("schedules-asan-bound1", "asan", "--bound", 1, "--budget", 1500)],
+    ),
+    manifest=dict(technique="stateless model checking: preemption-bounded exhaustive schedule enumeration of real threads under a cooperative scheduler at hooked mutex operations, ThreadSanitizer as race oracle on every schedule",
+                  text="All schedules within the preemption bound are executed on the real library; races are decided by TSan on each schedule, result equality against single-threaded runs."),
+)
+
+
+# ------------------------------------------------------------------------------------------------ C18
+def _mx(name, *args, **kw):
+    return dict(name=name, driver="memx", args=list(args), **kw)
+
+
+def _c18_cov(rs):
+    scen = sum(r.get("counters", {}).get("evaluations", 0) for r in rs if r.get("space") == "parse") + _sum(rs, "sequences_balanced")
+    return {"states": max(1, scen), "transitions": max(1, _sum(rs, "endings") + _sum(rs, "work_items") + _sum(rs, "terminate_with_custom_manager_checked")),
+            "traces_validated_against_impl": _sum(rs, "endings") + _sum(rs, "sequences_balanced"),
+            "distinct_nontrivial": _sum(rs, "ended_by_handler_exception") + _sum(rs, "ended_by_fatal_error") + _sum(rs, "terminate_with_custom_manager_checked"),
+            "nonvacuity": {k: _sum(rs, k) for k in ("ended_normally", "ended_by_fatal_error", "ended_by_handler_exception", "ended_by_library_exception", "allocations_through_ledger",
+                                                     "global_growth_checks", "sequences_balanced", "terminate_with_custom_manager_checked", "work_items")},
+            "explanation": "states = (document, API, object lifetime) scenarios and balanced Initialize/Terminate sequences; transitions/traces = every way each scenario can end "
+                           "(completion, fatal error, exception from the k-th callback for every k, progressive parse abandoned after every parseNext), each executed on the "
+                           "real library with ledger MemoryManagers"}
+
+
+CHECKS["C18"] = dict(
+    level="model_checking",
+    rule="Ledger MemoryManagers (allocate/deallocate log keyed by pointer with owner; foreign, cross-manager and double releases detected at the call; outstanding blocks "
+         "counted when the owning object is gone) are given to SAXParser / SAX2XMLReader / XercesDOMParser / DOMLSParser and, as global manager, to Initialize. For every "
+         "document (all words <= k over a 14-token alphabet incl. malformed and DTD-bearing ones, plus DTD/schema valid/invalid, missing external entities) x API x "
+         "lifetime {destroy parser; reuse parser then destroy; adoptDocument, destroy parser, use and release the document; adopt+release, reuse, destroy}: EVERY way the "
+         "parse can end is enumerated - completion, fatal error, an exception thrown from the k-th handler callback for every k up to the number of callbacks of the "
+         "undisturbed run, a progressive parse abandoned after every parseNext. After each: ledger empty, no fault, and a repeat of the scenario does not grow the global "
+         "manager. Initialize/Terminate: ALL sequences of length <= d over {Init(default), Init(custom manager), Terminate, parse, regex, transcode/registry} that are "
+         "balanced are executed back to back in one process; after the last Terminate the custom manager's ledger is empty and every work item gives the first-time result.",
+    trusted_base=["clang 14 ASan/UBSan (use-after-free on released blocks)"],
+    assumptions=["allocation failure is not injected", "blocks the library takes from operator new directly (not through a MemoryManager) are only covered by ASan, not by the ledger"],
+    coverage=_c18_cov,
+    runs=dict(
+        quick=[_mx("parse-endings-k1", "--space", "parse", "--k", 1), _mx("init-term-depth5", "--space", "initterm", "--depth", 5)],
+        thorough=[_mx("parse-endings-k2", "--space", "parse", "--k", 2), _mx("init-term-depth7", "--space", "initterm", "--depth", 7)],
+    ),
+    manifest=dict(technique="exhaustive enumeration of parse endings (every callback index, every parseNext count) and of balanced Initialize/Terminate sequences on the real library with ledger memory managers",
+                  text="Every ending within the stated bounds is executed; the ledger invariant is evaluated after each."),
 )
 
 
